@@ -87,6 +87,11 @@ def C01(tier, seed, st):
                 res.violation(stream="E", case=ln, impl=i, model="", spec="%d non-empty words joined by single separators" % n,
                               why="wrong number of words or a leading/trailing/doubled separator")
     res.streams["E"] = len(lines)
+    # the same generator calls after the package has been used for validation in that language
+    q = tier == "quick"
+    def e_ops(lang):
+        return ["E %s %s" % (lang, hx(e)) for el in ENT_LENS for e in gens.diagonal_entropies(el // 4 * 3, 3 if q else 40, start=rng.randrange(2048))]
+    run_Q(res, warm_E_histories(rng, LANGS, e_ops), judge_op_generator)
     return res
 
 
@@ -147,6 +152,11 @@ def C05(tier, seed, st):
     res.sample({"case": lines[-1], "impl": impl[-1], "decoded": decoded.get(len(lines) - 1)})
     res.streams["E"] = len(lines)
     res.streams["D"] = len(dl)
+    # many encodings in one process with every earlier result kept alive: an earlier mnemonic must still be the
+    # encoding of its entropy after later calls (BUFFERS-CHANGED), also after validation calls
+    def e_ops(lang):
+        return ["E %s %s" % (lang, hx(rng.randbytes(rng.choice(ENT_LENS)))) for _ in range(6 if q else 40)]
+    run_Q(res, warm_E_histories(rng, LANGS, e_ops), judge_op_generator)
     return res
 
 
@@ -390,12 +400,20 @@ def C02(tier, seed, st):
     rng = random.Random(seed)
     check_K(res, random.Random(seed + 17), "quick")
     items = valid_items(rng, tier) + word_items(rng, tier)
+    # sentences of the longest / shortest words of each list, at every word count
+    for lang in LANGS:
+        for n in WORD_COUNTS:
+            for idx in gens.extreme_sentences(rng, lang, n):
+                items.append(("valid-extreme", lang, gens.sentence(lang, idx), "accept"))
+                items.append(("valid-extreme", lang, gens.sentence(lang, idx, "　".encode()), "accept"))
     def judge(tag, expect, icls, iv, sacc, scls, xs, lang):
         if icls == "nil" and sacc != "accept":
             return "accepted a sentence the specification rejects"
         if scls == "nil" and xs == "1" and icls != "nil":
             return "a valid mnemonic was rejected: " + icls
-        if tag in ("valid", "valid-altsep", "word", "generated") and not (scls == "nil" and sacc == "accept"):
+        if tag == "generated" and not (scls == "nil" and sacc == "accept"):
+            return "a mnemonic returned by the generator is not a valid sentence by the specification (%s)" % scls
+        if tag in ("valid", "valid-altsep", "valid-extreme", "word") and not (scls == "nil" and sacc == "accept"):
             return "generator self-check: the specification does not classify this constructed sentence as valid (%s)" % scls
         return None
     run_C(res, items, judge)
@@ -430,6 +448,10 @@ def run_Q(res, histories, judge_op):
     flat = [op for h in histories for op in h]
     uniq = sorted(set(op for op in flat if op[0] in "ECL"))
     specd = dict(zip(uniq, common.run_model(uniq, "spec")))
+    suniq = sorted(set(op for op in flat if op[0] == "S"))
+    for op, sp in zip(suniq, common.run_model(suniq, "spec")):
+        f = sp.split()
+        specd[op] = "seed " + pbk(unhx(f[1]), unhx(f[2])) + " " + f[5]
     for h, ql, i, m in zip(histories, qlines, impl, model):
         res.evaluations += 1
         res.count("Q/len%d" % min(len(h), 9))
@@ -445,6 +467,15 @@ def run_Q(res, histories, judge_op):
             continue
         bad = None
         for k, (op, r) in enumerate(zip(h, ir)):
+            if op[0] == "S":
+                want, xs = specd[op].rsplit(" ", 1)
+                if r != want:
+                    if xs == "xs=0":
+                        res.known["id=F3-xtext-stream-safe class=not-xsafe MnemonicToSeed differs from PBKDF2 over true NFKD when an argument's NFKD form has a run of more than 30 modifiers (stream-safe NFKD of golang.org/x/text)"] = op
+                    else:
+                        bad = (k, op, r, "MnemonicToSeed differs from the specification's seed inside a history (expected %s...)" % want[:30])
+                        break
+                continue
             why = judge_op(op, r, specd.get(op))
             if why:
                 bad = (k, op, r, why)
@@ -469,6 +500,73 @@ def run_Q(res, histories, judge_op):
         res.sample({"history": qlines[0][:400], "impl": impl[0][:300]})
     res.streams["Q"] = res.streams.get("Q", 0) + len(qlines)
     return impl
+
+
+def validator_pair_histories(rng, langs, quick):
+    """ordered pairs (and A,B,A triples) of diverse validator inputs of one language in ONE process: a scratch buffer,
+    pool or cache that survives a call shows up as a result that depends on what was validated before"""
+    hist = []
+    for lang in langs:
+        items = gens.validator_inputs(rng, lang, n=rng.choice(WORD_COUNTS) if quick else None)
+        ops = ["C %s %s" % (lang, hx(b)) for _, b in items]
+        for a in range(len(ops)):
+            for b in range(len(ops)):
+                if a != b:
+                    hist.append([ops[a], ops[b]])
+        for _ in range(10):
+            hist.append([rng.choice(ops) for _ in range(rng.randrange(3, 8))])
+    return hist
+
+
+def seed_histories(rng, quick):
+    """MnemonicToSeed call sequences: repeats, equivalent spellings in a row, arguments whose concatenation around the
+    literal "mnemonic" coincides, swapped and shifted arguments"""
+    import unicodedata
+    W = gens.sentence("English", gens.indices_of_entropy(rng.randbytes(16)))
+    J = gens.sentence("Japanese", gens.indices_of_entropy(rng.randbytes(16)))
+    Jsp = gens.sentence("Japanese", gens.indices_of_entropy(rng.randbytes(16)), b" ")
+    F = gens.sentence("French", gens.indices_of_entropy(rng.randbytes(16)))
+    Fnfc = unicodedata.normalize("NFC", F.decode()).encode()
+    S = lambda m, p_: "S %s %s" % (hx(m), hx(p_))
+    hist = [
+        [S(W, b"x"), S(W, b"x"), S(W, b"x")],
+        [S(J, b""), S(J, b""), S(Jsp, b""), S(J, b"")],
+        [S(Fnfc, b"pw"), S(Fnfc, b"pw"), S(F, b"pw"), S(Fnfc, b"pw")],
+        [S(b"", b"mnemonic"), S(b"mnemonic", b"")],
+        [S(b"mnemonic", b""), S(b"", b"mnemonic"), S(b"", b"")],
+        [S(W, b"my mnemonic vault"), S(W + b"mnemonicmy ", b" vault")],
+        [S(W + b"mnemonicmy ", b" vault"), S(W, b"my mnemonic vault")],
+        [S(b"zoo", b"mnemonic wallet 1"), S(b"zoomnemonic", b" wallet 1")],
+        [S(b"ab", b"c"), S(b"a", b"bc"), S(b"abc", b""), S(b"", b"abc")],
+        [S(W, b"a"), S(b"a", W), S(W, b"a")],
+        [S(W, b""), S(W[:-1], b""), S(W, b"")],
+        [S(W, "é".encode()), S(W, "é".encode()), S(W, "é".encode())],
+    ]
+    for _ in range(4 if quick else 60):
+        pool = [x.encode() for x in gens.nfc_like_pool()]
+        args = [(b" ".join(rng.choice(pool) for _ in range(rng.randrange(1, 4))), rng.choice(pool + [b""])) for _ in range(3)]
+        hist.append([S(*rng.choice(args)) for _ in range(rng.randrange(2, 7))])
+    return hist
+
+
+def warm_E_histories(rng, langs, e_ops_for):
+    """generation AFTER the package has validated in that language (valid, unknown words at several positions, wrong
+    checksum, wrong count): shared tables must be the same afterwards.  e_ops_for(lang) -> list of E op lines"""
+    hist = []
+    for lang in langs:
+        warm = ["C %s %s" % (lang, hx(b)) for tag, b in gens.validator_inputs(rng, lang, n=12)
+                if tag.split("-")[0] in ("valid", "unknown", "checksum", "count")][:8]
+        hist.append(warm + e_ops_for(lang))
+    return hist
+
+
+def judge_op_generator(op, r, sp):
+    """E ops inside a history against the specification; C ops by the validator rules"""
+    if op[0] == "E" and sp is not None and sp != "unspecified":
+        if strip_impl_E(r) != sp:
+            return "NewMnemonicByEntropy inside a history differs from the BIP39 sentence of the specification"
+        return None
+    return judge_op_validator(op, r, sp)
 
 
 def judge_op_validator(op, r, sp):
@@ -517,6 +615,7 @@ def C03(tier, seed, st):
             sent = hx(gens.sentence(lang, gens.indices_of_entropy(rng.randbytes(n // 3 * 4)), b" "))
             others = rng.sample([l for l in LANGS if l != lang] + UNSUPPORTED[:3], 4)
             hist.append(["C %s %s" % (lang, sent)] + ["C %s %s" % (o, sent) for o in others] + ["C %s %s" % (lang, sent)])
+    hist += validator_pair_histories(rng, rng.sample(LANGS, 2) if q else LANGS, q)
     run_Q(res, hist, judge_op_validator)
     # all 2048 candidate last words for a prefix: count and set against the specification
     prefixes = []
@@ -587,6 +686,8 @@ def C15(tier, seed, st):
                 # count and words wrong: the count wins
                 items.append(("count-and-unknown", lang, b" ".join([b"qq"] * (n + 1)), None))
     run_C(res, items, lambda *a: judge_common(*a))
+    # the same kinds of sentences one after another in one process: the class must not depend on what came before
+    run_Q(res, validator_pair_histories(rng, rng.sample(LANGS, 2) if q else LANGS, q), judge_op_validator)
     return res
 
 
@@ -624,6 +725,11 @@ def C10(tier, seed, st):
                 import unicodedata
                 pairs.append(("sentence-" + form, lang, base, unicodedata.normalize(form, base.decode()).encode()))
             pairs.append(("sentence-fullwidth", lang, base, b" ".join(gens.fullwidth(w) for w in base.split(b" "))))
+            # only ONE character respelled: the first, the last, a random one
+            for where in ("first", "last", "random", "random"):
+                v = gens.respell_one_char(rng, base, where)
+                if v:
+                    pairs.append(("one-char-" + where, lang, base, v))
             # invalid sentences too: equal NFKD forms must get equal verdicts
             bad = list(idx)
             bad[-1] ^= 1
@@ -714,6 +820,11 @@ def C06(tier, seed, st):
             add(n, lang, [(data[i:i + 1], None) for i in range(need)], "bytewise")
             add(n, lang, [(data, None)], "overlong")
             add(n, lang, [(b"", None), (b"", None), (data[:need], None)], "empty-reads-first")
+        # a source that blocks for seconds before delivering (a blocked entropy pool): still not a failure
+        lang = rng.choice(LANGS)
+        data = rng.randbytes(need)
+        add(n, lang, [(data[:5], None), (data[5:need], None, 2600 if q else 7000)], "slow-source")
+        add(n, lang, [(data[:need - 1], None, 2600), (b"", "eof")], "slow-source-then-eof")
     impl = common.run_impl(lines)
     model = common.run_model(lines, "model")
     # expected by the property, computed from the script: encoding (by the specification) of the first need delivered bytes
@@ -804,7 +915,7 @@ def C13(tier, seed, st):
     hist = []
     # every ordered pair of first-used languages (quick: a sample), validation then generation
     pairs = [(a, b) for a in LANGS for b in LANGS]
-    for a, b in (rng.sample(pairs, 16) if q else pairs):
+    for a, b in pairs:
         sa = hx(gens.sentence(a, gens.indices_of_entropy(rng.randbytes(16))))
         sb = hx(gens.sentence(b, gens.indices_of_entropy(rng.randbytes(16))))
         hist.append(["C %s %s" % (a, sa), "C %s %s" % (b, sb), "C %s %s" % (a, sb), "C %s %s" % (b, sa), "C %s %s" % (a, sa)])
@@ -819,6 +930,11 @@ def C13(tier, seed, st):
         lang = rng.choice(LANGS)
         e = rng.randbytes(32)
         hist.append(["E %s %s" % (lang, hx(e[:16])), "E %s %s" % (lang, hx(e[16:])), "E %s %s" % (lang, hx(e)), "E %s %s" % (lang, hx(e[:16]))])
+    # validator inputs of every kind after one another; seed derivations after one another
+    hist += validator_pair_histories(rng, rng.sample(LANGS, 2) if q else LANGS, q)
+    hist += seed_histories(rng, q)
+    # generation after validation
+    hist += warm_E_histories(rng, LANGS, lambda lang: ["E %s %s" % (lang, hx(rng.randbytes(rng.choice(ENT_LENS)))) for _ in range(4)])
     # random histories
     for _ in range(60 if q else 1500):
         hist.append([random_op(rng, pool) for _ in range(rng.randrange(2, 9))])
@@ -962,6 +1078,30 @@ def C08(tier, seed, st):
                 k = idx // 11
                 res.violation(stream="E", case=lines[LANGS.index(lang) * 187 + min(k, 186)], impl=sorted(hx(g) for g in got), model="",
                               spec=hx(t[idx]), why="the word emitted for index %d of %s is not the canonical word" % (idx, lang))
+                break
+    # (1b) the same 2048 indices observed AFTER validation calls (valid, unknown words, wrong checksum) in that language,
+    #      in one process: the shared table must not have been touched
+    def e_ops(lang):
+        k0 = LANGS.index(lang) * 187
+        return lines[k0:k0 + 187]
+    hw = warm_E_histories(rng, LANGS, e_ops)
+    qi = common.run_impl(["Q " + "|".join(h) for h in hw])
+    for lang, h, r in zip(LANGS, hw, qi):
+        res.evaluations += 1
+        res.count("index-after-validation/" + lang)
+        rr = r.split(" BUFFERS-CHANGED")[0].split(" | ")
+        t = gens.table(lang)
+        nwarm = len(h) - 187
+        if "BUFFERS-CHANGED" in r or len(rr) != len(h):
+            res.violation(stream="Q", case=("Q " + "|".join(h))[:3000], impl=r[:300], model="", spec="history completes, buffers unchanged", why="history of validation then generation failed")
+            continue
+        for k in range(187):
+            pre = want[LANGS.index(lang) * 187 + k]
+            out = strip_impl_E(rr[nwarm + k])
+            ws = unhx(out[3:]).split(gens.sep(lang)) if out.startswith("ok ") else []
+            if ws[:11] != [t[i] for i in pre]:
+                res.violation(stream="Q", case=("Q " + "|".join(h[:nwarm] + [h[nwarm + k]]))[:4000], impl=out[:300], model="", spec=hx(gens.sep(lang).join(t[i] for i in pre))[:300],
+                              why="after validation calls the word emitted for an index of %s is no longer the canonical word" % lang)
                 break
     # (2) validation maps each word back to the same index: every word of every list inside a valid sentence
     items = word_items(rng, "thorough")
@@ -1124,6 +1264,13 @@ def s_inputs(rng, tier):
         pairs.append((b"e" + u(0x301).encode() * k, b""))
         pairs.append((b"x", u(0x301).encode() * k))
         pairs.append((b"x", u(0x316).encode() + u(0x301).encode() * (k - 1)))
+    # marks at the edges of BOTH arguments: nothing may reorder or compose across the argument boundary
+    lo, hi = [0x323, 0x316, 0x327, 0x5B0], [0x301, 0x308, 0x303, 0x3099]
+    for _ in range(12 if q else 200):
+        m = u(rng.choice(lo)) + rng.choice(["abc", "e", ""]) + u(rng.choice(hi + lo))
+        p_ = rng.choice(["pass e", "caf", "x", ""]) + u(rng.choice(hi)) * rng.randrange(1, 3)
+        pairs.append((m.encode(), p_.encode()))
+        pairs.append((p_.encode(), m.encode()))
     # invalid UTF-8 (extra: the property speaks of valid UTF-8 only; the model covers all byte strings)
     for _ in range(10 if q else 200):
         pairs.append((rng.randbytes(rng.randrange(1, 40)), rng.randbytes(rng.randrange(0, 20))))
@@ -1206,6 +1353,7 @@ def C04(tier, seed, st):
     check_K(res, rng, tier)
     check_crypto(res, rng, tier)
     run_S(res, s_inputs(rng, tier), "C04")
+    run_Q(res, seed_histories(rng, tier == "quick"), lambda op, r, sp: None)
     full_seeds(res, rng, tier)
     return res
 
@@ -1269,6 +1417,8 @@ def C11(tier, seed, st):
                               why="two (mnemonic, passphrase) pairs with equal NFKD forms give different seeds" if ia != ib else "seed differs from the specification")
     res.sample({"pair": [lines[2][:160], lines[3][:160]], "impl": [impl[2][:40], impl[3][:40]]})
     res.streams["S"] = len(lines)
+    # equivalent spellings and repeats one after another in one process
+    run_Q(res, seed_histories(rng, q), lambda op, r, sp: None)
     return res
 
 
@@ -1572,6 +1722,12 @@ def C07(tier, seed, st):
             parts = gens.fragment(rng, d, rng.randrange(1, 4))
             lines.append("N %d %s %s" % (n, lang, gens.script_str([(p_, None) for p_ in parts])))
             datas.append((lang, d))
+    for n in WORD_COUNTS:     # a slow source
+        need = n + n // 3
+        d = rng.randbytes(need)
+        lang = rng.choice(LANGS)
+        lines.append("N %d %s %s" % (n, lang, gens.script_str([(d[:1], None), (d[1:], None, 2600)])))
+        datas.append((lang, d))
     impl = common.run_impl(lines)
     model = common.run_model(lines, "model")
     spec = common.run_model(["E %s %s" % (lang, hx(d)) for lang, d in datas], "spec")
